@@ -12,6 +12,30 @@ THEOREMS = THEOREMS + vcore.theorems_in("SodiumModel/Properties/C04Poly.lean", [
 IMPORTS = ["SodiumModel.Properties.C04"] if THEOREMS else ["SodiumModel.Model.Hash"]
 THEOREMS = THEOREMS + vcore.theorems_in("SodiumModel/Properties/C04Compress.lean", ['sha256_Krnd_eq_spec', 'sha256_RNDr_eq_spec_round', 'sha256_MSCH_eq_spec_schedule', 'sha256_transform_eq_spec', 'sha256_compress_fn_eq_spec', 'sha512_Krnd_eq_spec', 'sha512_RNDr_eq_spec_round', 'sha512_MSCH_eq_spec_schedule', 'sha512_transform_eq_spec', 'sha512_compress_fn_eq_spec', 'blake2b_IV_eq_spec', 'blake2b_sigma_eq_spec', 'blake2b_G_eq_spec', 'blake2b_ROUND_eq_spec', 'blake2b_compress_ref_eq_spec', 'blake2b_compress_fn_eq_spec', 'blake2b_increment_counter_eq', 'blake2b_increment_counter_ti_eq', 'blake2b_set_lastblock_eq', 'siphash_SIPROUND_eq_spec', 'siphash_tail_eq_spec', 'siphash24_eq_spec', 'siphashx24_eq_spec', 'siphash24_fn_eq_spec', 'siphashx24_fn_eq_spec', 'chunkLaw_sha256_ref', 'chunkLaw_sha512_ref', 'sha256_ref_chunks', 'sha512_ref_chunks', 'blake2b_ref_chunks', 'generichash_ref_spec', 'kdf_blake2b_ref_spec', 'hmacsha256_ref_chunks', 'hmacsha512_ref_chunks', 'hkdf_sha256_ref_expand', 'hkdf_sha512_ref_expand'], "Sodium.C04Compress")
 IMPORTS = IMPORTS + ["SodiumModel.Properties.C04Poly", "SodiumModel.Properties.C04Compress"]
+_SIMD = ['avx2_ROT32_eq_rotr', 'avx2_ROT24_eq_rotr', 'avx2_ROT16_eq_rotr', 'avx2_ROT63_eq_rotr', 'sse_roti_eq_rotr', 'avx2_load_msg_eq_sigma', 'ssse3_load_msg_eq_sigma',
+         'sse41_load_msg_eq_sigma', 'message_words_eq_spec', 'avx2_G1_G2_eq_spec_column', 'sse_G1_G2_eq_spec_column', 'avx2_diag_G1_G2_undiag_eq_spec_diagonal',
+         'sse_diag_G1_G2_undiag_eq_spec_diagonal', 'avx2_ROUND_eq_spec_round', 'ssse3_ROUND_eq_spec_round', 'sse41_ROUND_eq_spec_round', 'blake2b_compress_avx2_eq_spec',
+         'blake2b_compress_ssse3_eq_spec', 'blake2b_compress_sse41_eq_spec', 'blake2b_compress_backends_agree', 'avx2_hF', 'ssse3_hF', 'sse41_hF',
+         'blake2b_chunks_of_compress_eq', 'generichash_of_compress_eq', 'kdf_blake2b_of_compress_eq', 'blake2b_avx2_chunks', 'blake2b_ssse3_chunks', 'blake2b_sse41_chunks',
+         'generichash_avx2_spec', 'generichash_ssse3_spec', 'generichash_sse41_spec', 'kdf_blake2b_avx2_spec', 'driver_b2Chunks_no_disagree']
+THEOREMS = THEOREMS + vcore.theorems_in("SodiumModel/Properties/C04Simd.lean", _SIMD, "Sodium.C04Simd")
+IMPORTS = IMPORTS + ["SodiumModel.Properties.C04Simd"]
+
+
+def tie_b(ctx):
+    """the SIMD BLAKE2b model: (1) its trusted intrinsic semantics are re-validated against this CPU, (2) the 144 message-load macros are regenerated from the
+    headers and the proofs re-checked against them if the text changed, (3) the hand-transcribed compress-*.c/h files are pinned by fingerprint"""
+    import subprocess, sys, os
+    vcore.simd_check(ctx, "blake2b", "simd_vectors.c", ["-msse2", "-mssse3", "-msse4.1", "-mavx2"], "SimdCheck.lean", via_stdin=False)
+    src = os.path.join(vcore.REPO, "src", "libsodium", "crypto_generichash", "blake2b", "ref")
+    gen = lambda out: subprocess.run([sys.executable, os.path.join(vcore.VERIF, "tools", "gen_b2load.py"), src, out], capture_output=True, text=True)
+    r = vcore.tie_b_regen(ctx, "BLAKE2b SIMD message loads (tools/gen_b2load.py)", gen, "SodiumModel/Model/Blake2bSimdLoad.lean", "SodiumModel.Properties.C04Simd",
+                          ["Sodium.C04Simd.blake2b_compress_avx2_eq_spec", "Sodium.C04Simd.blake2b_compress_ssse3_eq_spec", "Sodium.C04Simd.blake2b_compress_sse41_eq_spec"],
+                          pinned_re=r"(blake2b-compress-[a-z0-9]+\.[ch]) ([0-9a-f]{24})")
+    ctx.log("Tie B: BLAKE2b SIMD load macros regenerated from the headers, %s" % ("identical / proofs hold" if not r else "CHANGED: %s" % [x[0] for x in r]))
+    return r
+
+
 FINGERPRINTS = "C04"     # Tie B: pinned source text of the hand-transcribed limb code (tools/fingerprint.py)
 RULE = ("every message length 0..1100 one-shot; chunk lists: all 2-way splits at block boundaries +-1, 3-way splits, random splits with "
         "empty chunks, byte-at-a-time; BLAKE2b every key length 0..64 and output length 1..64 (+ out of range), salt/personal; HMAC keys "
